@@ -79,6 +79,31 @@ def run(ctx, config):
                "result of fallible %s is ignored; the function goes on as if it had succeeded" % callee_name(el.e))
     for k in sorted(F.propagated):
         r3.inst(k, None)
+    # ---- after releasing chains inside a loop every exit re-links the list (also on the failure exits)
+    r4 = Rule("C14-relink", "K11", "after chains were released every path to an exit repairs the link that pointed to them", floor=4)
+    for fn in B.fns:
+        if fn.name in ("evbuffer_chain_free", "evbuffer_free_all_chains", "evbuffer_decref_and_unlock_"):
+            continue
+        for el in fn.calls():
+            if callee_name(el.e) not in B.RELEASERS:
+                continue
+            arg = strip(el.e[2][0]) if el.e[2] else None
+            # already unlinked: the link was repaired earlier in the same block, or the chain is a DANGLING (off-list) one
+            before = any(B.is_link_repair(x) for x in fn.blocks[el.bid].elems[:el.idx])
+            dangling = any(t and any(is_e(q, "int") and "DANGLING" in (q[2] if len(q) > 2 else "") for q in walk(c))
+                           for c, t in (negate_truth(c2, t2) for c2, t2, _ in fn.guards_at(el.bid)))
+            if before or dangling:
+                r4.inst((fn.name, el.n), {"fn": fn.name, "site": el.where(), "released": show(arg),
+                                          "already_unlinked": "link repaired earlier in the block" if before else "EVBUFFER_DANGLING chain is off the list"})
+                continue
+            w = fn.exit_reachable_avoiding(el.pos(), B.is_link_repair)
+            r4.inst((fn.name, el.n), {"fn": fn.name, "site": el.where(), "released": show(arg), "repaired_on_every_exit": w is None,
+                                      "witness": getattr(w, "line", None)})
+            if w is not None:
+                r4.bad("K11:%s:link-not-repaired-after-release" % fn.name, el.where(), fn.name,
+                       "%s is released here but the path returning at line %s never re-links or resets the list: a `next`/`first` pointer keeps "
+                       "pointing at freed memory" % (show(arg), getattr(w, "line", "end")))
+    rules.append(r4)
     r1.notes.append("fallible functions inferred: %s" % sorted(k for k in F.fallible if k in B.byname))
     r1.notes.append("committing functions inferred: %s" % sorted(B.committing))
     rules += [r1, r2, r3]
